@@ -4,7 +4,9 @@ From Coq Require Import NArith List Bool.
 From Falcon Require Import Base.Res Graph.NMap Graph.NMapFacts Graph.Graph Graph.GraphInv Graph.Algo Graph.Spec
   Graph.Oracle Graph.OracleProofs Graph.ReachProofs Graph.C11Check Graph.SemiNca3 Graph.Small3 Graph.DomTheory
   Graph.OrderProofs Graph.LoopProofs Graph.BackEdges Graph.PreOrderProofs Graph.DomTreeProofs Graph.ClosureTotal Graph.IdomExists Graph.PreOrderDfs
-  Graph.DomModel Graph.FrontierModel Graph.Unreachable Graph.TopoProofs Graph.AcyclicProofs Graph.PostOrderProofs Graph.ReducibleModel Graph.PreOrderIsDfs Graph.LoopModel Graph.LoopTreeModel Graph.TransPredsModel.
+  Graph.DomModel Graph.FrontierModel Graph.Unreachable Graph.TopoProofs Graph.AcyclicProofs Graph.PostOrderProofs Graph.ReducibleModel Graph.PreOrderIsDfs Graph.LoopModel Graph.LoopTreeModel Graph.TransPredsModel Graph.SpecDfs
+  Graph.OracleDfsProofs Graph.PreOrderSpec Graph.DfsTreeModel Graph.AcyclicGraphModel Graph.SemiNcaFacts Graph.DfsFacts
+  Graph.PathLemma Graph.SemiDomTheory Graph.SemiNcaTheory.
 Import ListNotations.
 Local Open Scope N_scope.
 
@@ -366,3 +368,124 @@ Theorem transitive_preds_correct : forall (V E : Type) (HV : Vertex V) (HE : Edg
     (forall v s, nm_get v P = Some s -> forall p, In p s <-> trans_pred (edge_keys g) p v).
 Proof. intros V E HV HE g Hgi. exact (TransPredsModel.compute_predecessors_correct g Hgi). Qed.
 Print Assumptions transitive_preds_correct.
+
+(* ================================================================== round 3 *)
+
+(* [U] compute_dfs_tree (model): a consistent graph that is a spanning tree of the reachable subgraph, rooted at
+   the root, made of graph edges *)
+Theorem compute_dfs_tree_correct : forall (V E : Type) (HV : Vertex V) (HE : Edge E) (g : graph V E) r,
+  GraphInv.graph_inv g -> has_vertex g r = true ->
+  exists t, compute_dfs_tree g r = Ok t /\ GraphInv.graph_inv t /\
+    (forall v, has_vertex t v = true <-> reach (edge_keys g) r v) /\
+    (forall p v, has_edge t p v = true -> edge (edge_keys g) p v /\ v <> r) /\
+    (forall p p' v, has_edge t p v = true -> has_edge t p' v = true -> p = p') /\
+    (forall v, reach (edge_keys g) r v -> v <> r -> exists p, has_edge t p v = true) /\
+    (forall v, reach (edge_keys g) r v -> reach (edge_keys t) r v).
+Proof. intros V E HV HE g r Hgi Hr. exact (DfsTreeModel.compute_dfs_tree_correct g Hgi r Hr). Qed.
+Print Assumptions compute_dfs_tree_correct.
+
+(* [U] compute_acyclic (model) *)
+Theorem compute_acyclic_correct : forall (V E : Type) (HV : Vertex V) (HE : Edge E) (g : graph V E) r,
+  GraphInv.graph_inv g -> has_vertex g r = true ->
+  exists t, compute_acyclic g r = Ok t /\ GraphInv.graph_inv t /\
+    is_acyclic_restriction (edge_keys g) (vertex_indices g) r (vertex_indices t) (edge_keys t).
+Proof. intros V E HV HE g r Hgi Hr. exact (AcyclicGraphModel.compute_acyclic_correct g Hgi r Hr). Qed.
+Print Assumptions compute_acyclic_correct.
+
+(* [U] the model's pre-order is a depth-first pre-order in the sense of Graph/SpecDfs.v *)
+Theorem pre_order_is_dfs_spec : forall (V E : Type) (HV : Vertex V) (HE : Edge E) (g : graph V E) r l,
+  GraphInv.graph_inv g -> compute_pre_order g r = Ok l -> is_dfs_pre_order (edge_keys g) r l.
+Proof. intros V E HV HE g r l Hgi. exact (PreOrderSpec.compute_pre_order_is_dfs_spec g Hgi r l). Qed.
+Print Assumptions pre_order_is_dfs_spec.
+
+(* [V] soundness of the last four executable oracles against Graph/SpecDfs.v: no oracle of the check is unverified *)
+Theorem pre_order_check_sound : forall es r l, pre_dfs_check es r l = true -> is_dfs_pre_order es r l.
+Proof. exact OracleDfsProofs.pre_dfs_check_sound. Qed.
+Print Assumptions pre_order_check_sound.
+Theorem post_order_check_sound : forall vs es r l,
+  post_order_ok (mk_tab vs es r) es r l = true -> is_dfs_post_order es r l.
+Proof. exact OracleDfsProofs.post_order_ok_sound. Qed.
+Print Assumptions post_order_check_sound.
+Theorem dfs_tree_check_sound : forall vs es r tv te,
+  dfs_tree_ok (mk_tab vs es r) es r tv te = true -> is_spanning_tree es r tv te.
+Proof. exact OracleDfsProofs.dfs_tree_ok_sound. Qed.
+Print Assumptions dfs_tree_check_sound.
+Theorem acyclic_graph_check_sound : forall vs es r tv te,
+  acyclic_graph_ok (mk_tab vs es r) vs es r tv te = true -> is_acyclic_restriction es vs r tv te.
+Proof. exact OracleDfsProofs.acyclic_graph_ok_sound. Qed.
+Print Assumptions acyclic_graph_check_sound.
+
+(* [U] towards Semi-NCA: the DFS-numbering facts for the very objects the model computes (dfs tree, its pre-order,
+   number_from, dfs_parent): every reachable vertex and no other has a number, the number is the position in the
+   order, the root is first and has no parent, every other reachable vertex has exactly one tree parent, which is a
+   graph predecessor with a SMALLER number *)
+Theorem snca_numbering : forall (V E : Type) (HV : Vertex V) (HE : Edge E) (g : graph V E) r,
+  GraphInv.graph_inv g -> has_vertex g r = true ->
+  exists dfs order, compute_dfs_tree g r = Ok dfs /\ compute_pre_order dfs r = Ok order /\
+    NoDup order /\ (forall v, In v order <-> reach (edge_keys g) r v) /\ (exists rest, order = r :: rest) /\
+    (forall v, (exists n, nm_get v (number_from 0 order) = Some n) <-> reach (edge_keys g) r v) /\
+    (forall l1 v l2, order = l1 ++ v :: l2 -> nm_get v (number_from 0 order) = Some (N.of_nat (length l1))) /\
+    dfs_parent dfs r = Ok None /\
+    (forall v, reach (edge_keys g) r v -> v <> r ->
+       exists p, dfs_parent dfs v = Ok (Some p) /\ edge (edge_keys g) p v /\ has_edge dfs p v = true /\
+         exists np nv, nm_get p (number_from 0 order) = Some np /\ nm_get v (number_from 0 order) = Some nv /\ np < nv).
+Proof. intros V E HV HE g r Hgi Hr. exact (SemiNcaFacts.snca_numbering g Hgi r Hr). Qed.
+Print Assumptions snca_numbering.
+
+(* [U] depth-first pre-orders (relational, Graph/SpecDfs.v) have no forward cross edges: an edge x -> y leads into the
+   segment explored from x (the DFS subtree of x) or to a vertex listed before x *)
+Theorem dfs_edge_lemma : forall es r l, is_dfs_pre_order es r l -> forall x y, In x l -> edge es x y ->
+  exists l1 sx l3, l = l1 ++ sx ++ l3 /\ dfs_pre es l1 x sx /\ (In y l1 \/ In y sx).
+Proof. exact DfsFacts.dfs_edge_lemma. Qed.
+Print Assumptions dfs_edge_lemma.
+
+(* [U] the path lemma of Lengauer-Tarjan: if v is listed no later than w in a depth-first pre-order, every walk from
+   v to w passes through a common ancestor of v and w (anc z x: x lies in the segment explored from z) *)
+Theorem path_lemma : forall es r l, is_dfs_pre_order es r l ->
+  forall v p w, path es v p w -> In v l -> (idx v l <= idx w l)%nat ->
+  exists z, In z (v :: p) /\ anc es l z v /\ anc es l z w.
+Proof. intros es r l Hd. exact (PathLemma.path_lemma es r l Hd). Qed.
+Print Assumptions path_lemma.
+
+(* [U] semidominators over a depth-first pre-order and the recurrence evaluated by the `semi` loop (Lengauer-Tarjan
+   Theorem 4, on candidates: sd_cand w s = there is a walk s -> .. -> w with at least one edge whose intermediate
+   vertices are all numbered higher than w) *)
+Theorem sd_cand_edge : forall es r l, is_dfs_pre_order es r l -> forall v w, In v l -> edge es v w -> sd_cand es l w v.
+Proof. intros es r l Hd. exact (SemiDomTheory.sd_cand_edge es l). Qed.
+Print Assumptions sd_cand_edge.
+Theorem sd_cand_up : forall es r l, is_dfs_pre_order es r l -> forall v w u s,
+  edge es v w -> anc es l u v -> (num l w < num l u)%nat -> sd_cand es l u s -> sd_cand es l w s.
+Proof. intros es r l Hd. exact (SemiDomTheory.sd_cand_up es r l Hd). Qed.
+Print Assumptions sd_cand_up.
+Theorem sdom_recurrence : forall es r l, is_dfs_pre_order es r l -> forall w s,
+  In w l -> w <> r -> sd_cand es l w s -> (forall s', sd_cand es l w s' -> (num l s <= num l s')%nat) ->
+  (edge es s w /\ (num l s < num l w)%nat) \/
+  (exists u v, edge es v w /\ anc es l u v /\ (num l w < num l u)%nat /\ sd_cand es l u s).
+Proof. intros es r l Hd. exact (SemiDomTheory.sdom_recurrence es r l Hd). Qed.
+Print Assumptions sdom_recurrence.
+
+(* [U] the dominator theory behind the NCA step of Semi-NCA, over a depth-first pre-order *)
+Theorem dom_anc : forall es r l, is_dfs_pre_order es r l -> forall d x, In x l -> dom es r d x -> anc es l d x.
+Proof. exact SemiNcaTheory.dom_anc. Qed.
+Print Assumptions dom_anc.
+Theorem idom_anc_cand : forall es r l, is_dfs_pre_order es r l -> forall i w s,
+  In w l -> idom es r i w -> sd_cand es l w s -> anc es l i s.
+Proof. exact SemiNcaTheory.idom_anc_cand. Qed.
+Print Assumptions idom_anc_cand.
+Theorem cand_anc : forall es r l, is_dfs_pre_order es r l -> forall w s,
+  In w l -> sd_cand es l w s -> (num l s < num l w)%nat -> anc es l s w.
+Proof. exact SemiNcaTheory.cand_anc. Qed.
+Print Assumptions cand_anc.
+Theorem dom_between : forall es r l, is_dfs_pre_order es r l -> forall x v p,
+  anc es l x v -> anc es l v p -> x <> v -> dom es r x p -> dom es r x v.
+Proof. exact SemiNcaTheory.dom_between. Qed.
+Print Assumptions dom_between.
+(* the NCA step: a proper ancestor x of w numbered no later than any semidominator candidate of w, which dominates the
+   proper ancestors of w below it, dominates w *)
+Theorem nca_step : forall es r l, is_dfs_pre_order es r l -> forall x w,
+  In w l -> w <> r -> anc es l x w -> x <> w ->
+  (forall s, sd_cand es l w s -> (num l x <= num l s)%nat) ->
+  (forall v, anc es l x v -> anc es l v w -> v <> w -> v <> x -> dom es r x v) ->
+  dom es r x w.
+Proof. exact SemiNcaTheory.nca_step. Qed.
+Print Assumptions nca_step.
